@@ -25,6 +25,9 @@ EXTENDS Integers, Sequences, FiniteSets, TLC, Json, SequencesExt
 CONSTANTS Roots,     \* root arrays, e.g. {"r", "s"}  (vertices, faces of one container)
           TViews,    \* names available for tracked views of the first root
           BViews,    \* names available for base-class (plain ndarray) views of the first root
+          QViews,    \* names available for tracked aliases made through a plain-ndarray intermediary
+                     \* (caching.tracked_array(a), np.asarray(a).view(TrackedArray), w.view(TrackedArray)):
+                     \* __array_finalize__ sees a plain ndarray, so the source is NOT marked
           Root1,     \* the root that views are taken of
           MaxDepth,
           AsBuilt    \* TRUE: implementation-shaped flags; FALSE: intended design (any write dirties every alias)
@@ -38,8 +41,8 @@ VARIABLES live,     \* set of live array objects
           hist
 
 vars == <<live, bytes, dirty, memo, cause, last, hist>>
-Objs == Roots \cup TViews \cup BViews
-Tracked == Roots \cup TViews
+Objs == Roots \cup TViews \cup BViews \cup QViews
+Tracked == Roots \cup TViews \cup QViews
 BufOf(a) == IF a \in Roots THEN a ELSE Root1
 View == <<live, dirty, [a \in Objs |-> IF memo[a] = -1 THEN 0 ELSE IF memo[a] = bytes[BufOf(a)] THEN 1 ELSE 2],
           cause, last>>
@@ -90,6 +93,17 @@ MakeBView(a, w) ==
     /\ UNCHANGED <<bytes, dirty, memo, cause>> /\ last' = <<>>
     /\ Log([op |-> "bview", a |-> a, v |-> w])
 
+\* tracked_array(a) / np.asarray(a).view(TrackedArray) / w.view(TrackedArray): a new TrackedArray on the
+\* same buffer whose creation touches no flag of any existing object (the source may be a base-class view)
+MakeQView(a, q) ==
+    /\ a \in live /\ BufOf(a) = Root1 /\ q \in QViews \ live
+    /\ live' = live \cup {q}
+    /\ dirty' = [dirty EXCEPT ![q] = TRUE]
+    /\ memo' = [memo EXCEPT ![q] = -1]
+    /\ cause' = [cause EXCEPT ![q] = {}]
+    /\ UNCHANGED <<bytes>> /\ last' = <<>>
+    /\ Log([op |-> "qview", a |-> a, v |-> q])
+
 \* effect of any write to buffer b through object a by a route of kind k
 Bump(a, k) ==
     LET b == BufOf(a)
@@ -126,6 +140,7 @@ Next == /\ Len(hist) < MaxDepth
         /\ \/ \E a \in Objs : Hash(a) \/ WriteOver(a) \/ WriteCLevel(a) \/ WriteBase(a) \/ ReadDerive(a) \/ ReadPlain(a)
            \/ \E a \in Objs, v \in TViews : MakeTView(a, v)
            \/ \E a \in Objs, w \in BViews : MakeBView(a, w)
+           \/ \E a \in Objs, q \in QViews : MakeQView(a, q)
 
 Spec == Init /\ [][Next]_vars
 
@@ -151,4 +166,6 @@ TV1 == {"v"}
 TV2 == {"v", "u"}
 BV1 == {"w"}
 BV0 == {}
+QV0 == {}
+QV1 == {"q"}
 =============================================================================
